@@ -56,11 +56,11 @@ import (
 // than the grace / idle period.
 
 const (
-	truncGrace   = 30 * time.Millisecond  // a factory call of the actor that has not returned by then waits for the truncation
-	truncIdle    = 100 * time.Millisecond // an actor that shows no progress for that long waits for something GC holds (today: GC holds the queue's read lock, every writer waits)
-	truncStuck   = 60 * time.Second       // harness failure, never a verdict
-	maxTruncOps  = 2                      // GC-inside-truncation operations per history
-	phEnter      = "enter"                // GC is about to call TruncatePages of the factory (whether or not pages expire)
+	truncGrace   = 20 * time.Millisecond // a factory call of the actor that has not returned by then waits for the truncation
+	truncIdle    = 60 * time.Millisecond // an actor that shows no progress for that long waits for something GC holds (today: GC holds the queue's read lock, every writer waits)
+	truncStuck   = 60 * time.Second      // harness failure, never a verdict
+	maxTruncOps  = 2                     // GC-inside-truncation operations per history
+	phEnter      = "enter"               // GC is about to call TruncatePages of the factory (whether or not pages expire)
 	phBeforeUnm  = "before-unmap"
 	phAfterUnm   = "after-unmap"
 	phBeforeRem  = "before-remove"
